@@ -11,13 +11,20 @@ equality of contents.
 Model: `Hfsm.Model.Bits` (BitArrayT, Bits/CBits), `Hfsm.Model.Stream` (StreamBufferT, write<W>, read<W>).
 Helper lemmas: `Hfsm.Proofs.Bits`, `Hfsm.Proofs.Stream`.
 
-Three clauses are FALSE of the code as written and are proved in `_partial` form plus a witness:
-* (F9) `Bits::operator bool` / `CBits::operator bool` "read no byte outside the view" — false when
-  `width % 8 = 0`; outside the *array* when the view ends at the last unit.
-* (pad) whole-array `empty` / `!=` / `&` as set operations on `{i < CAPACITY | get i}` — false after
-  `set()` when `CAPACITY % 8 ≠ 0` (it sets the padding bits, which `empty`, `!=`, `&` inspect).
-  They are exact as set operations on `[0, 8·UNIT_COUNT)`.
-* `operator &` is not "the intersection is non-empty": it is "every unit holds a common bit".
+Status against the current /repo:
+* (F9, repaired by "fix: Bits/CBits operator bool no longer reads the byte after a whole-byte view")
+  `operator bool` reads no byte outside the view — now a full theorem (`toBoolReads_in_view`,
+  `toBoolReads_in_array`).  Before the repair it was false for `width % 8 = 0` (witness then:
+  `BitArrayT<8>`, `bits<0,8>()` read units `[0, 1]`).
+* (pad, repaired by "fix: BitArrayT::set() leaves the padding bits of the last unit clear")
+  whole-array `empty` / `!=` as set operations on `{i < CAPACITY | get i}` — now full theorems for every
+  array reachable from the constructor by the public operations (`empty_iff`, `neq_iff`).  Before the
+  repair `set()` on a capacity not divisible by 8 set the padding bits (witness then: `BitArrayT<5>`,
+  `set()`, `clear(0…4)`, `empty() == false`).
+* Still FALSE / open (known findings): `operator &` is not "the intersection is non-empty" but "every
+  unit holds a common bit" (`andAny_iff_units`, `andAny_not_intersects`); `Bits::clear()` zeroes whole
+  units, i.e. also bits after the view's width (`get_view_clearAll`; harmless under the library's unit
+  layout, `view_clearAll_disjoint`, `layout_pairwise`).
 -/
 import Hfsm.Proofs.Bits
 import Hfsm.Proofs.Stream
@@ -38,7 +45,7 @@ theorem wf_set (cap : Nat) (s : Storage) (i : Nat) (h : WF cap s) : WF cap (set 
   unfold WF at *; rw [length_set]; exact h
 theorem wf_clear (cap : Nat) (s : Storage) (i : Nat) (h : WF cap s) : WF cap (clear s i) := by
   unfold WF at *; rw [length_clear]; exact h
-theorem wf_setAll (cap : Nat) (s : Storage) (h : WF cap s) : WF cap (setAll s) := by
+theorem wf_setAll (cap : Nat) (s : Storage) (h : WF cap s) : WF cap (setAll cap s) := by
   unfold WF at *; rw [length_setAll]; exact h
 theorem wf_clearAll (cap : Nat) (s : Storage) (h : WF cap s) : WF cap (clearAll s) := by
   unfold WF at *; rw [length_clearAll]; exact h
@@ -105,9 +112,12 @@ theorem get_beyond (s : Storage) (i : Nat) (h : 8 * s.length ≤ i) : get s i = 
 
 /-! ### whole-array operations as set operations on `[0, 8·UNIT_COUNT)` -/
 
-/-- `set()`: every index of every unit — including the padding `CAPACITY … 8·UNIT_COUNT-1`. -/
-theorem get_setAll (s : Storage) (i : Nat) : get (setAll s) i = decide (i < 8 * s.length) := by
-  rw [get_eq_bitAt, bitAt_setAll]
+/-- `set()`: exactly the indices below the capacity (the padding bits of the last unit stay clear). -/
+theorem get_setAll (cap : Nat) (s : Storage) (hwf : WF cap s) (i : Nat) :
+    get (setAll cap s) i = decide (i < cap) := by
+  rw [get_eq_bitAt, bitAt_setAll cap s hwf]
+
+example : WF 13 (mk 13) := wf_mk 13
 
 /-- `clear()`: the empty set. -/
 theorem get_clearAll (s : Storage) (i : Nat) : get (clearAll s) i = false := by
@@ -187,13 +197,12 @@ theorem andAny_single_unit (a b : Storage) (ha : a.length = 1) (hb : b.length = 
 
 example : ([5#8] : Storage).length = 1 ∧ ([4#8] : Storage).length = 1 ∧ andAny [5#8] [4#8] = true := by decide
 
-/-! ### … and on `[0, CAPACITY)`: needs the padding bits to be zero
+/-! ### … and on `[0, CAPACITY)`: the padding bits stay zero
 
-FULL STATEMENT (false): for every array reachable through the public interface,
-`empty() ⇔ ∀ i < CAPACITY, ¬get(i)` and `a != b ⇔ ∃ i < CAPACITY, a.get(i) ≠ b.get(i)`.
-It fails after `set()` when `CAPACITY % 8 ≠ 0` (`pad_witness_*`).  The partial versions carry the
-decidable hypothesis `PadClean`, which the constructor establishes, every operation except `set()`
-preserves, and `set()` preserves iff `CAPACITY % 8 = 0`. -/
+`empty()`, `!=` and `&` inspect whole units, so they are set operations on `[0, CAPACITY)` exactly when the
+padding bits `CAPACITY … 8·UNIT_COUNT-1` are zero (`PadClean`).  The constructor establishes that and
+every public operation preserves it (`padClean_*`; `set()` since the padding repair), so the statements
+hold for every reachable array (`Reachable`, `empty_iff`, `neq_iff`, after the views section). -/
 
 /-- The padding bits `CAPACITY … 8·UNIT_COUNT-1` are zero. -/
 def PadClean (cap : Nat) (s : Storage) : Prop := ∀ i, cap ≤ i → i < 8 * s.length → get s i = false
@@ -226,18 +235,23 @@ theorem padClean_andAssign_left (cap : Nat) (a b : Storage) (hl : a.length = b.l
   rw [andAssign_length a b hl] at hlen
   rw [get_andAssign, h j hj hlen]; simp
 
-/-- `set()` keeps the padding clean when there is no padding. -/
-theorem padClean_setAll (cap : Nat) (s : Storage) (hwf : WF cap s) (h8 : cap % 8 = 0) :
-    PadClean cap (setAll s) := by
-  intro j hj hl
-  rw [length_setAll, hwf] at hl
-  unfold unitCount contain at hl
-  omega
+/-- `set()` keeps the padding clean, for every capacity. -/
+theorem padClean_setAll (cap : Nat) (s : Storage) (hwf : WF cap s) : PadClean cap (setAll cap s) := by
+  intro j hj _
+  rw [get_setAll cap s hwf]
+  have : ¬ j < cap := by omega
+  simp [this]
 
-example : WF 16 (mk 16) ∧ 16 % 8 = 0 := ⟨wf_mk 16, by decide⟩
+example : WF 13 (mk 13) := wf_mk 13
 
-/-- `empty()` over `[0, CAPACITY)` — partial: padding clean. -/
-theorem empty_iff_partial (cap : Nat) (s : Storage) (hwf : WF cap s) (hp : PadClean cap s) :
+theorem padClean_andAssign_right (cap : Nat) (a b : Storage) (hl : a.length = b.length)
+    (h : PadClean cap b) : PadClean cap (andAssign a b) := by
+  intro j hj hlen
+  rw [andAssign_length a b hl] at hlen
+  rw [get_andAssign, h j hj (by omega)]; simp
+
+/-- `empty()` over `[0, CAPACITY)`, given clean padding. -/
+theorem empty_iff_of_padClean (cap : Nat) (s : Storage) (hwf : WF cap s) (hp : PadClean cap s) :
     empty s = true ↔ ∀ i, i < cap → get s i = false := by
   rw [empty_iff_units]
   have hcap : cap ≤ 8 * s.length := by rw [hwf]; unfold unitCount contain; omega
@@ -248,8 +262,8 @@ theorem empty_iff_partial (cap : Nat) (s : Storage) (hwf : WF cap s) (hp : PadCl
     · exact h i hc
     · exact hp i (by omega) hi
 
-/-- `operator !=` over `[0, CAPACITY)` — partial: padding clean on both sides. -/
-theorem neq_iff_partial (cap : Nat) (a b : Storage) (ha : WF cap a) (hb : WF cap b)
+/-- `operator !=` over `[0, CAPACITY)`, given clean padding on both sides. -/
+theorem neq_iff_of_padClean (cap : Nat) (a b : Storage) (ha : WF cap a) (hb : WF cap b)
     (hpa : PadClean cap a) (hpb : PadClean cap b) :
     neq a b = true ↔ ∃ i, i < cap ∧ get a i ≠ get b i := by
   have hl : a.length = b.length := by rw [ha, hb]
@@ -266,22 +280,11 @@ theorem neq_iff_partial (cap : Nat) (a b : Storage) (ha : WF cap a) (hb : WF cap
 example : WF 13 (set (mk 13) 12) ∧ PadClean 13 (set (mk 13) 12) :=
   ⟨wf_set 13 _ 12 (wf_mk 13), padClean_set 13 _ 12 (by decide) (padClean_mk 13)⟩
 
-/-- Witness (pad): `BitArrayT<5>`: `set()`, then `clear(0) … clear(4)`.  No index below the capacity is set,
-yet `empty()` answers `false`, and the array compares `!=` to a freshly constructed one. -/
-theorem pad_witness_empty :
-    let s := clear (clear (clear (clear (clear (setAll (mk 5)) 0) 1) 2) 3) 4
-    (∀ i, i < 5 → get s i = false) ∧ empty s = false ∧ neq s (mk 5) = true := by decide
-
-/-- Hence the full statement is false. -/
-theorem empty_iff_full_false :
-    ¬ (∀ (cap : Nat) (s : Storage), WF cap s → (empty s = true ↔ ∀ i, i < cap → get s i = false)) := by
-  intro h
-  have hw := pad_witness_empty
-  simp only at hw
-  have := (h 5 _ (wf_clear 5 _ 4 (wf_clear 5 _ 3 (wf_clear 5 _ 2 (wf_clear 5 _ 1
-    (wf_clear 5 _ 0 (wf_setAll 5 _ (wf_mk 5)))))))).2 hw.1
-  rw [hw.2.1] at this
-  cases this
+/-- Regression example for the padding repair: `BitArrayT<5>`, `set()`, then `clear(0) … clear(4)` is empty
+and equal to a fresh array (before the repair `empty()` answered `false` here). -/
+theorem pad_fixed_example :
+    let s := clear (clear (clear (clear (clear (setAll 5 (mk 5)) 0) 1) 2) 3) 4
+    setAll 5 (mk 5) = [0x1F#8] ∧ empty s = true ∧ neq s (mk 5) = false := by decide
 
 /-! ### views `bits<UNIT, WIDTH>()`, `bits(Units{unit, width})` -/
 
@@ -420,8 +423,8 @@ theorem toBool_iff_exists (s : Storage) (unit width : Nat) :
   · rintro ⟨i, hi, h⟩; exact ⟨i, hi, by rw [view_get, get_eq_bitAt]; exact h⟩
   · rintro ⟨i, hi, h⟩; exact ⟨i, hi, by rw [view_get, get_eq_bitAt] at h; exact h⟩
 
-/-- Whatever an out-of-array read returns, `operator bool` gives the same answer and reads the same
-bytes (the tail byte is masked with 0 when `width % 8 = 0`). -/
+/-- Whatever an out-of-array read would return, `operator bool` gives the same answer and reads the
+same bytes (under the `bits()` precondition it never performs such a read, `toBoolReads_in_array`). -/
 theorem toBool_oob_irrelevant (oob : Byte) (s : Storage) (unit width : Nat)
     (hfit : View.fits s unit width) :
     View.toBoolRun oob s unit width = (View.toBool s unit width, View.toBoolReads s unit width) := by
@@ -430,82 +433,108 @@ theorem toBool_oob_irrelevant (oob : Byte) (s : Storage) (unit width : Nat)
 
 example : View.fits (mk 16) 1 8 := by decide
 
-/-- `operator bool` reads only units `unit … unit + width/8` (inclusive!). -/
-theorem toBoolReads_range (s : Storage) (unit width : Nat) :
-    ∀ k ∈ View.toBoolReads s unit width, unit ≤ k ∧ k ≤ unit + width / 8 := by
+/-- **`operator bool` reads no byte outside the view** — for every width (full statement; before the
+F9 repair this held only for `width % 8 ≠ 0`). -/
+theorem toBoolReads_in_view (s : Storage) (unit width : Nat) :
+    ∀ k ∈ View.toBoolReads s unit width, unit ≤ k ∧ k < unit + contain width 8 := by
   unfold View.toBoolReads View.toBoolRun
   simp only
   intro k
   have hr := scanFull_reads (width / 8) 0#8 s unit
+  unfold contain
   cases hsc : (View.scanFull 0#8 s unit (width / 8)).1
-  · simp only [Bool.false_eq_true, if_false, List.mem_append, List.mem_singleton]
-    rintro (hk | hk)
-    · have := hr k hk; omega
-    · omega
+  · simp only [Bool.false_eq_true, if_false]
+    by_cases hb : width % 8 = 0
+    · rw [if_pos hb]
+      intro hk; have := hr k hk; omega
+    · rw [if_neg hb]
+      simp only [List.mem_append, List.mem_singleton]
+      rintro (hk | hk)
+      · have := hr k hk; omega
+      · omega
   · simp only [if_true]
     intro hk; have := hr k hk; omega
 
-/-- FULL STATEMENT (false, F9): `operator bool` reads no byte outside the view:
-`∀ k ∈ toBoolReads s unit width, unit ≤ k ∧ k < unit + contain width 8`.
-Partial version: it holds when `width % 8 ≠ 0`. -/
-theorem toBoolReads_in_view_partial (s : Storage) (unit width : Nat) (h8 : width % 8 ≠ 0) :
-    ∀ k ∈ View.toBoolReads s unit width, unit ≤ k ∧ k < unit + contain width 8 := by
+/-- … hence, under the `bits()` precondition, no byte outside the array. -/
+theorem toBoolReads_in_array (s : Storage) (unit width : Nat) (hfit : View.fits s unit width) :
+    ∀ k ∈ View.toBoolReads s unit width, k < s.length := by
   intro k hk
-  have := toBoolReads_range s unit width k hk
-  unfold contain
-  omega
-
-example : (13 : Nat) % 8 ≠ 0 := by decide
-
-/-- … and then, under `fits`, no byte outside the array either. -/
-theorem toBoolReads_in_array_partial (s : Storage) (unit width : Nat) (hfit : View.fits s unit width)
-    (h8 : width % 8 ≠ 0) : ∀ k ∈ View.toBoolReads s unit width, k < s.length := by
-  intro k hk
-  have := toBoolReads_in_view_partial s unit width h8 k hk
+  have := toBoolReads_in_view s unit width k hk
   unfold View.fits at hfit
   omega
 
-/-- When the view is empty, the byte `_storage[width / 8]` (absolute unit `unit + width/8`) is read —
-for `width % 8 = 0` that is the first byte *after* the view. -/
-theorem toBoolReads_tail_when_empty (s : Storage) (unit width : Nat)
-    (h : View.toBool s unit width = false) : unit + width / 8 ∈ View.toBoolReads s unit width := by
-  unfold View.toBool View.toBoolReads View.toBoolRun at *
-  simp only at *
-  cases hsc : (View.scanFull 0#8 s unit (width / 8)).1
-  · simp
-  · simp [hsc] at h
+example : View.fits (mk 8) 0 8 ∧ View.fits (mk 24) 1 16 := by decide
 
-/-- Witness (F9): `BitArrayT<8>` (one unit), freshly constructed, `bits<0, 8>()` (or `bits(Units{0, 8})`):
-`operator bool` reads units 0 and 1; unit 1 is `_storage[UNIT_COUNT]`, one past the end of the array. -/
-theorem F9_witness :
-    View.fits (mk 8) 0 8 ∧ View.toBoolReads (mk 8) 0 8 = [0, 1] ∧ (mk 8).length = 1 := by decide
+/-- Regression example for F9: `BitArrayT<8>`, freshly constructed, `bits<0, 8>()`: `operator bool` reads
+unit 0 only (before the repair it read `[0, 1]`, unit 1 being one past the array). -/
+theorem F9_fixed_example :
+    View.toBoolReads (mk 8) 0 8 = [0] ∧ View.toBoolReads (mk 24) 1 16 = [1, 2] ∧
+    View.toBoolReads (mk 13) 0 13 = [0, 1] := by decide
 
-/-- Hence both full statements are false: the read leaves the view, and it leaves the array. -/
-theorem toBoolReads_in_view_full_false :
-    ¬ (∀ (s : Storage) (unit width : Nat), View.fits s unit width →
-        ∀ k ∈ View.toBoolReads s unit width, unit ≤ k ∧ k < unit + contain width 8) := by
-  intro h
-  have := h (mk 8) 0 8 (by decide) 1 (by decide)
-  revert this; decide
+/-! ### reachable arrays: the whole-array predicates on `[0, CAPACITY)` -/
 
-theorem toBoolReads_in_array_full_false :
-    ¬ (∀ (s : Storage) (unit width : Nat), View.fits s unit width →
-        ∀ k ∈ View.toBoolReads s unit width, k < s.length) := by
-  intro h
-  have := h (mk 8) 0 8 (by decide) 1 (by decide)
-  revert this; decide
+/-- Arrays reachable from the constructor by the public operations, each within its contract.
+(`copy` = assignment is the identity on storages.)  A view may be declared wider than the capacity
+(`bits()` only checks the unit range); writing through it at `8·unit + i ≥ CAPACITY` would set a padding
+bit, so `viewSet` carries the index condition explicitly (`view_set_beyond_capacity`). -/
+inductive Reachable (cap : Nat) : Storage → Prop
+  | mk : Reachable cap (Bits.mk cap)
+  | set (s : Storage) (i : Nat) : Reachable cap s → i < cap → Reachable cap (Bits.set s i)
+  | clear (s : Storage) (i : Nat) : Reachable cap s → i < cap → Reachable cap (Bits.clear s i)
+  | setAll (s : Storage) : Reachable cap s → Reachable cap (Bits.setAll cap s)
+  | clearAll (s : Storage) : Reachable cap s → Reachable cap (Bits.clearAll s)
+  | andAssign (a b : Storage) : Reachable cap a → Reachable cap b → Reachable cap (Bits.andAssign a b)
+  | viewSet (s : Storage) (unit width i : Nat) : Reachable cap s → View.fits s unit width → i < width →
+      8 * unit + i < cap → Reachable cap (View.set s unit i)
+  | viewClear (s : Storage) (unit width i : Nat) : Reachable cap s → View.fits s unit width → i < width →
+      Reachable cap (View.clear s unit i)
+  | viewClearAll (s : Storage) (unit width : Nat) : Reachable cap s → View.fits s unit width →
+      Reachable cap (View.clearAll s unit width)
 
-/-- The out-of-view read happens for every empty view of width ≡ 0 (mod 8): it is outside the array
-exactly when the view ends at the last unit. -/
-theorem F9_general (s : Storage) (unit width : Nat) (h8 : width % 8 = 0)
-    (hend : unit + contain width 8 = s.length) (hempty : View.toBool s unit width = false) :
-    ∃ k ∈ View.toBoolReads s unit width, s.length ≤ k := by
-  refine ⟨unit + width / 8, toBoolReads_tail_when_empty s unit width hempty, ?_⟩
-  unfold contain at hend
-  omega
+/-- Invariant of reachable arrays: right size, padding bits zero. -/
+theorem reachable_inv (cap : Nat) (s : Storage) (h : Reachable cap s) : WF cap s ∧ PadClean cap s := by
+  induction h with
+  | mk => exact ⟨wf_mk cap, padClean_mk cap⟩
+  | set s i _ hi ih => exact ⟨wf_set cap s i ih.1, padClean_set cap s i hi ih.2⟩
+  | clear s i _ _ ih => exact ⟨wf_clear cap s i ih.1, padClean_clear cap s i ih.2⟩
+  | setAll s _ ih => exact ⟨wf_setAll cap s ih.1, padClean_setAll cap s ih.1⟩
+  | clearAll s _ ih => exact ⟨wf_clearAll cap s ih.1, padClean_clearAll cap s⟩
+  | andAssign a b _ _ iha ihb =>
+    exact ⟨wf_andAssign cap a b iha.1 ihb.1,
+      padClean_andAssign_left cap a b (by rw [iha.1, ihb.1]) iha.2⟩
+  | viewSet s unit width i _ _ _ hc ih =>
+    rw [view_set]
+    exact ⟨wf_set cap s _ ih.1, padClean_set cap s _ hc ih.2⟩
+  | viewClear s unit width i _ _ _ ih =>
+    rw [view_clear]
+    exact ⟨wf_clear cap s _ ih.1, padClean_clear cap s _ ih.2⟩
+  | viewClearAll s unit width _ _ ih =>
+    refine ⟨by unfold WF; rw [length_view_clearAll]; exact ih.1, ?_⟩
+    intro j hj hl
+    rw [length_view_clearAll] at hl
+    rw [get_view_clearAll, ih.2 j hj hl]; simp
 
-example : (16 : Nat) % 8 = 0 ∧ 1 + contain 16 8 = (mk 24).length ∧ View.toBool (mk 24) 1 16 = false := by
-  decide
+/-- **`empty()` ⇔ no index below the capacity is set**, for every reachable array. -/
+theorem empty_iff (cap : Nat) (s : Storage) (h : Reachable cap s) :
+    empty s = true ↔ ∀ i, i < cap → get s i = false :=
+  empty_iff_of_padClean cap s (reachable_inv cap s h).1 (reachable_inv cap s h).2
+
+/-- **`a != b` ⇔ the index sets below the capacity differ**, for reachable arrays. -/
+theorem neq_iff (cap : Nat) (a b : Storage) (ha : Reachable cap a) (hb : Reachable cap b) :
+    neq a b = true ↔ ∃ i, i < cap ∧ get a i ≠ get b i :=
+  neq_iff_of_padClean cap a b (reachable_inv cap a ha).1 (reachable_inv cap b hb).1
+    (reachable_inv cap a ha).2 (reachable_inv cap b hb).2
+
+example : Reachable 13 (clear (setAll 13 (set (Bits.mk 13) 12)) 3) :=
+  .clear _ 3 (.setAll _ (.set _ 12 .mk (by decide))) (by decide)
+
+/-- Remark: the asserts of `bits()` accept a view wider than the capacity (`BitArrayT<5>`,
+`bits(Units{0, 8})`); setting its index 7 sets a padding bit, after which `empty()` is `false` although no
+index below the capacity is set.  Such a write is outside `Reachable` (the library's `OrthoForks` has
+`CAPACITY = 8·ORTHO_UNITS`, so it cannot occur there). -/
+theorem view_set_beyond_capacity :
+    let s := View.set (Bits.mk 5) 0 7
+    View.fits (Bits.mk 5) 0 8 ∧ (∀ i, i < 5 → get s i = false) ∧ empty s = false := by decide
 
 /-! ## (b) bit stream -/
 
@@ -810,18 +839,16 @@ bit array, per index      : get_mk, get_set_same, get_set_other, get_clear_same,
                             wf_mk, wf_set, wf_clear, wf_setAll, wf_clearAll, wf_andAssign
 whole array (unit domain) : get_setAll, get_clearAll, empty_iff_units, neq_iff_ne, neq_iff_units,
                             get_andAssign, andAny_iff_units, andAny_single_unit, andAny_not_intersects
-whole array (capacity)    : empty_iff_partial, neq_iff_partial, padClean_mk, padClean_set,
-                            padClean_clear, padClean_clearAll, padClean_andAssign_left, padClean_setAll,
-                            pad_witness_empty, empty_iff_full_false            (full statement false)
+whole array (capacity)    : padClean_mk, padClean_set, padClean_clear, padClean_clearAll,
+                            padClean_andAssign_left, padClean_andAssign_right, padClean_setAll,
+                            empty_iff_of_padClean, neq_iff_of_padClean, reachable_inv, empty_iff, neq_iff,
+                            pad_fixed_example, view_set_beyond_capacity
 views                     : view_get, view_set, view_clear, view_set_frame, view_get_set_same,
                             view_clear_frame, view_get_clear_same, view_index_touched,
                             get_view_clearAll, view_get_clearAll, view_clearAll_touched,
                             view_clearAll_disjoint, view_clearAll_extra, layout_pairwise,
                             length_view_clearAll, toBool_iff_exists, toBool_oob_irrelevant,
-                            toBoolReads_range, toBoolReads_in_view_partial, toBoolReads_in_array_partial,
-                            toBoolReads_tail_when_empty, F9_witness, F9_general,
-                            toBoolReads_in_view_full_false, toBoolReads_in_array_full_false
-                                                                               (full statement false, F9)
+                            toBoolReads_in_view, toBoolReads_in_array, F9_fixed_example
 stream                    : bufEq_iff, bufNe_iff, bufEq_iff_toNat, write_cursor, write_length,
                             read_cursor, write_touched_in_buffer, read_touched_in_buffer,
                             write_bits_general, write_toNat_general, spill_example, write_bits, write_toNat, read_bits,
